@@ -164,8 +164,8 @@ prop("C14",
      min_nontrivial=10000)
 
 prop("C15",
-     quick=[rapid("TestC15Pipe", 40000), rapid("TestC15Subst", 40000), plain("TestC15Shapes", shards=6), plain("TestC15Structs")],
-     thorough=[rapid("TestC15Pipe", 400000, shards=8), rapid("TestC15Subst", 400000, shards=8), plain("TestC15Shapes", shards=6), plain("TestC15Structs")],
+     quick=[rapid("TestC15Pipe", 40000), rapid("TestC15Subst", 40000), plain("TestC15Shapes", shards=6), plain("TestC15Structs"), plain("TestC15Sizes")],
+     thorough=[rapid("TestC15Pipe", 400000, shards=8), rapid("TestC15Subst", 400000, shards=8), plain("TestC15Shapes", shards=6), plain("TestC15Structs"), plain("TestC15Sizes")],
      rule="rapid: (a) pairs (A, B), B generated against the value of A: Search('(A) | (B)', d) vs Search(B, Search(A, d)): equal values, error exactly when a step errors; (b) sub-expression S in one of 26 root-evaluated contexts C (pipe left, ||/&& operands, multi-select members, function arguments, comparator operands, projection left-hand sides, ...): Search(C[S], d) vs Search(C[literal(Search(S, d))], d). (c) shape grid: every projection-shape expression A (16 left-hand sides x 18 projection operator chains x 18 right-hand sides) piped into 20 short right-hand sides B ([0], [-1], length(@), [?@], type(@), ...) on 11 documents with null-producing elements. (d) the pipe law on a Go struct document (typed slices, pointers) with type-sensitive right-hand sides (sort, max, join, sum, ==). The library is compared with itself; the reference model only supplies the ambiguity verdict and the bag structure for order-insensitive comparison. Non-trivial: A non-identity with non-null result and B not a literal; S not already a literal.",
      technique="algebraic laws checked on the library itself (metamorphic): pipe splitting and literal substitution",
      level_text="Metamorphic relations over generated expressions and documents; no expected answers needed.",
